@@ -14,6 +14,7 @@ use serde_json::json;
 use sc::verif::{Action, Call, Rule, GUARDED_FOREVER};
 use vh::runner::{CaseReport, CaseResult, Ctx, Failure};
 
+mod classify;
 mod outparams;
 mod scan;
 mod table;
@@ -388,6 +389,10 @@ pub fn run(ctx: &Ctx) {
     init_fixtures();
 
     if ctx.is_replay() {
+        if ctx.replay_case::<classify::Window>("classify").is_some() || ctx.replay_case::<classify::Window>("classify-rand").is_some() {
+            classify::run(ctx);
+            return;
+        }
         if ctx.replay_case::<outparams::OutCase>("out-params").is_some() {
             outparams::run(ctx);
             return;
@@ -463,4 +468,5 @@ pub fn run(ctx: &Ctx) {
         TABLE.len()
     ));
     outparams::run(ctx);
+    classify::run(ctx);
 }
